@@ -5,7 +5,7 @@
    spec_case : what the implementation did is what a finite map would do
                (reference association list), evictions never take the protected
                key, Len = number of entries, capacity respected. *)
-From Sdns Require Export Common.Base Gen.C16 C16.Model C16.Conc C16.Limiter.
+From Sdns Require Export Common.Base Gen.C16 C16.Model C16.Conc C16.Limiter C16.Lin.
 Open Scope nat_scope.
 
 (* ---------------------------------------------------------------- cases *)
@@ -62,7 +62,12 @@ Inductive case :=
   (* NewLimiterStore(maxSize, _): observed calls (Get with the time stamp it stored, the identity of the
      limiter it returned and the key that vanished, if any; Cleanup with the bracket of its cutoff and
      the keys it removed), each with Len() afterwards *)
-| CaseLim (maxSize : Z) (steps : list (lop * Z)).
+| CaseLim (maxSize : Z) (steps : list (lop * Z))
+  (* a concurrent history recorded on one cache.Cache (real goroutines): every call of
+     Get / Add / Remove / CompareAndSwap / CompareAndDelete with its result and the
+     logical-clock stamps taken before the call and after the return; thread ids are
+     the workers, the last reads (one per key) were made after every worker returned *)
+| CaseLin (ops : list hop).
 
 (* ------------------------------------------------------------- helpers *)
 Definition dig_p : N := 1099511628211%N.
@@ -346,6 +351,11 @@ Definition check_case (c : case) : bool :=
       (* with the spill loop the source text has (Conc.go_rescan) *)
       sched_check go_rescan prefix progs steps reads complete
   | CaseLim ms steps => lim_run ms [] steps
+  | CaseLin ops =>
+      (* some order of the calls that respects "returned before the other was called" is a
+         legal history of the sequential map specification (Lin.legal) — the specification
+         every schedule of the interleaving model meets (Proofs_lin.runs_linearize) *)
+      linearizable ops
   end.
 
 (* ------------------------------------------------------------- the spec *)
@@ -498,6 +508,36 @@ Fixpoint lim_spec_run (ms : Z) (m : ref) (steps : list (lop * Z)) : bool :=
       end
   end.
 
+(* A recorded concurrent history judged without any search: a value read under a key, or
+   found current by a CompareAndSwap / CompareAndDelete that hit, is a value some call of
+   the history stored under THAT key (keys never alias, nothing is invented); and a read
+   made after every writer returned misses only if some call could have removed the key. *)
+Definition stores_kv (e : lev) (k v : N) : bool :=
+  match e with
+  | LStore _ k' v' => N.eqb k k' && N.eqb v v'
+  | LCas _ k' _ v' true => N.eqb k k' && N.eqb v v'
+  | LPia _ k' v' true => N.eqb k k' && N.eqb v v'
+  | _ => false
+  end.
+Definition removes_k (e : lev) (k : N) : bool :=
+  match e with
+  | LRem _ k' | LDel _ k' _ | LCad _ k' _ true => N.eqb k k'
+  | LEvict _ _ ks | LClear _ ks => lmem k ks
+  | _ => false
+  end.
+Definition lin_spec (ops : list hop) : bool :=
+  let evs := map h_ev ops in
+  let last_ret := fold_left (fun a h => match h_ev h with LGet _ _ _ => a | _ => Z.max a (h_ret h) end) ops 0%Z in
+  forallb (fun h =>
+             match h_ev h with
+             | LGet _ k (Some v) => existsb (fun e => stores_kv e k v) evs
+             | LGet _ k None =>
+                 (h_call h <=? last_ret)%Z || negb (existsb (fun e => match e with LStore _ k' _ => N.eqb k k' | _ => false end) evs) ||
+                 existsb (fun e => removes_k e k) evs
+             | LCas _ k old _ true | LCad _ k old true => existsb (fun e => stores_kv e k old) evs
+             | _ => true
+             end) ops.
+
 Definition spec_case (c : case) : bool :=
   match c with
   | CaseTab _ _ _ steps _ _ => tab_spec_run [] steps
@@ -506,4 +546,5 @@ Definition spec_case (c : case) : bool :=
   | CaseGo _ => true
   | CaseSched prefix progs steps _ _ => sched_spec prefix progs steps
   | CaseLim ms steps => lim_spec_run ms [] steps
+  | CaseLin ops => lin_spec ops
   end.
